@@ -4,6 +4,8 @@ import struct
 from ..vlib import WIDTHS, tobytes, values, nlimbs, rand_value
 
 BINS = ["ux_conv"]
+# the wrapped payload of a failed float conversion is not fixed by the property
+PIPE = {"neg_skip": ("wr",)}
 RULE = ("float->Uint: complete product of exponent classes {0 (subnormal),1,1022,1023,1023+k for k in {1,23,24,51,52,53,"
         "54,63,64,BITS-1,BITS,BITS+1,1023},2047} x fraction classes {0,1,2^51,2^51+-1,2^52-1,patterns selecting k+1/2, odd "
         "and even integers} x sign, plus explicit odd integers in [2^52,2^53), k+1/2 for small and large k, 2^BITS-1/2, "
